@@ -1,6 +1,380 @@
-//! Job kinds of this property (see lib/prop_*.py). Returns None for kinds it does not know.
-use serde_json::Value;
+//! C16 — serialization round trips (see lib/prop_c16.py). Returns None for kinds it does not know.
+//!
+//! json_roundtrip: configuration in job format -> `serde_json::to_string`, `from_str` of that text,
+//!                 `==`, and dumps / token streams of the scanners built before and after.
+//! json_parse:     a JSON text -> does `from_str::<Vec<ScannerMode>>` accept it, and which value.
+//! json_values:    Span / Position / Match / MatchExt from numbers -> texts and round trips;
+//!                 texts -> accepted or not, and which value.
+use std::panic::{catch_unwind, AssertUnwindSafe};
 
-pub fn run(_kind: &str, _job: &Value) -> Option<Value> {
-    None
+use scnr::{Match, MatchExt, MatchExtIterator, Position, ScannerMode, Span};
+use serde_json::{json, Map, Value};
+
+/// The configuration in the harness' job format, read off the `Serialize` output of the modes.
+/// (ScannerMode has no public accessors for its patterns and transitions.)
+fn reemit(modes: &[ScannerMode]) -> Result<Value, String> {
+    let v = serde_json::to_value(modes).map_err(|e| format!("to_value: {}", e))?;
+    let arr = v.as_array().ok_or("configuration is not an array")?;
+    let mut out = Vec::new();
+    for (m, orig) in arr.iter().zip(modes) {
+        let name = m.get("name").and_then(|n| n.as_str()).ok_or("mode without name")?;
+        if name != orig.name() {
+            return Err(format!("name() = {:?} but serialized name = {:?}", orig.name(), name));
+        }
+        let mut pats = Vec::new();
+        for p in m.get("patterns").and_then(|p| p.as_array()).ok_or("mode without patterns")? {
+            let mut q = Map::new();
+            q.insert("p".into(), json!(p.get("pattern").and_then(|s| s.as_str()).ok_or("pattern without pattern")?));
+            q.insert("t".into(), json!(p.get("token_type").and_then(|t| t.as_u64()).ok_or("pattern without token_type")?));
+            match p.get("lookahead") {
+                None | Some(Value::Null) => {}
+                Some(la) => {
+                    q.insert(
+                        "la".into(),
+                        json!({
+                            "pos": la.get("is_positive").and_then(|b| b.as_bool()).ok_or("lookahead without is_positive")?,
+                            "p": la.get("pattern").and_then(|s| s.as_str()).ok_or("lookahead without pattern")?,
+                        }),
+                    );
+                }
+            }
+            pats.push(Value::Object(q));
+        }
+        let mut trans = Vec::new();
+        for t in m.get("transitions").and_then(|t| t.as_array()).ok_or("mode without transitions")? {
+            let a = t.as_array().filter(|a| a.len() == 2).ok_or("transition is not a pair")?;
+            trans.push(json!([a[0].as_u64().ok_or("transition token")?, a[1].as_u64().ok_or("transition mode")?]));
+        }
+        out.push(json!({"name": name, "patterns": pats, "transitions": trans}));
+    }
+    Ok(Value::Array(out))
+}
+
+fn streams(scanner: &scnr::Scanner, inputs: &[Value]) -> Vec<Vec<Vec<u64>>> {
+    inputs
+        .iter()
+        .map(|inp| {
+            let inp = inp.as_str().unwrap_or("");
+            let n = inp.chars().count() + 2;
+            let ops: Vec<Value> = (0..n).map(|_| json!(["next"])).collect();
+            crate::run_ops(scanner, inp, &ops, false)
+        })
+        .collect()
+}
+
+fn job_roundtrip(job: &Value) -> Value {
+    let mut res = Map::new();
+    let modes = match catch_unwind(|| crate::modes_from_json(&job["modes"])) {
+        Ok(m) => m,
+        Err(p) => {
+            res.insert("construct".into(), json!(format!("panic: {}", crate::panic_message(p))));
+            return Value::Object(res);
+        }
+    };
+    res.insert("construct".into(), json!("ok"));
+    let text = match catch_unwind(AssertUnwindSafe(|| serde_json::to_string(&modes))) {
+        Ok(Ok(t)) => t,
+        Ok(Err(e)) => {
+            res.insert("to_string".into(), json!(format!("error: {}", e)));
+            return Value::Object(res);
+        }
+        Err(p) => {
+            res.insert("to_string".into(), json!(format!("panic: {}", crate::panic_message(p))));
+            return Value::Object(res);
+        }
+    };
+    res.insert("to_string".into(), json!("ok"));
+    res.insert("text".into(), json!(text));
+    if job.get("pretty").and_then(|b| b.as_bool()).unwrap_or(false) {
+        if let Ok(p) = serde_json::to_string_pretty(&modes) {
+            let back = serde_json::from_str::<Vec<ScannerMode>>(&p);
+            res.insert("pretty_equal".into(), json!(matches!(&back, Ok(b) if *b == modes)));
+            res.insert("pretty".into(), json!(p));
+        }
+    }
+    let reread = match catch_unwind(AssertUnwindSafe(|| serde_json::from_str::<Vec<ScannerMode>>(&text))) {
+        Ok(Ok(m)) => m,
+        Ok(Err(e)) => {
+            res.insert("from_str".into(), json!(format!("error: {}", e)));
+            return Value::Object(res);
+        }
+        Err(p) => {
+            res.insert("from_str".into(), json!(format!("panic: {}", crate::panic_message(p))));
+            return Value::Object(res);
+        }
+    };
+    res.insert("from_str".into(), json!("ok"));
+    res.insert("equal".into(), json!(reread == modes && modes == reread));
+    // a second trip must reproduce the text
+    res.insert(
+        "text_stable".into(),
+        json!(matches!(serde_json::to_string(&reread), Ok(t2) if t2 == text)),
+    );
+    // the value-level reader (`from_value`) agrees with the text-level one
+    res.insert(
+        "via_value_equal".into(),
+        json!(serde_json::to_value(&modes)
+            .ok()
+            .and_then(|v| serde_json::from_value::<Vec<ScannerMode>>(v).ok())
+            .map(|m| m == modes)
+            .unwrap_or(false)),
+    );
+    match reemit(&reread) {
+        Ok(v) => {
+            res.insert("reread_modes".into(), v);
+        }
+        Err(e) => {
+            res.insert("reemit_error".into(), json!(e));
+        }
+    }
+    // behaviour of the scanners built from the original and from the re-read configuration
+    let (s1, c1, e1) = crate::build(&modes, false);
+    let (s2, c2, e2) = crate::build(&reread, false);
+    res.insert("build".into(), json!(c1));
+    res.insert("build2".into(), json!(c2));
+    if c1 != c2 || e1 != e2 {
+        res.insert("error".into(), json!(e1));
+        res.insert("error2".into(), json!(e2));
+        res.insert("build_equal".into(), json!(false));
+        return Value::Object(res);
+    }
+    res.insert("build_equal".into(), json!(true));
+    if let (Some(s1), Some(s2)) = (s1, s2) {
+        let d1 = crate::dump_to_json(&scnr::verif::dump(&s1));
+        let d2 = crate::dump_to_json(&scnr::verif::dump(&s2));
+        let mut dump_equal = d1 == d2;
+        if !dump_equal {
+            // control: is the compilation of one and the same configuration reproducible at all?
+            let (s3, _, _) = crate::build(&modes, false);
+            let reproducible = s3.map(|s3| crate::dump_to_json(&scnr::verif::dump(&s3)) == d1).unwrap_or(false);
+            res.insert("dump_reproducible".into(), json!(reproducible));
+            if !reproducible {
+                dump_equal = true;
+            } else {
+                res.insert("dump1".into(), d1.clone());
+                res.insert("dump2".into(), d2);
+            }
+        }
+        res.insert("dump_equal".into(), json!(dump_equal));
+        res.insert(
+            "dump_states".into(),
+            json!(d1["modes"].as_array().map(|a| a.iter().map(|m| m["dfa"]["states"].as_array().map(|s| s.len()).unwrap_or(0)).sum::<usize>()).unwrap_or(0)),
+        );
+        let empty = Vec::new();
+        let inputs = job.get("inputs").and_then(|i| i.as_array()).unwrap_or(&empty);
+        let st1 = streams(&s1, inputs);
+        let st2 = streams(&s2, inputs);
+        res.insert("streams_equal".into(), json!(st1 == st2));
+        if st1 != st2 {
+            res.insert("streams2".into(), json!(st2));
+        }
+        res.insert("streams".into(), json!(st1));
+    }
+    Value::Object(res)
+}
+
+fn job_parse(job: &Value) -> Value {
+    let text = job["text"].as_str().unwrap_or("");
+    let mut res = Map::new();
+    match catch_unwind(|| serde_json::from_str::<Vec<ScannerMode>>(text)) {
+        Ok(Ok(modes)) => {
+            res.insert("accept".into(), json!(true));
+            match reemit(&modes) {
+                Ok(v) => {
+                    res.insert("modes".into(), v);
+                }
+                Err(e) => {
+                    res.insert("reemit_error".into(), json!(e));
+                }
+            }
+            if let Ok(t) = serde_json::to_string(&modes) {
+                res.insert("reser".into(), json!(t));
+            }
+            // independent of Serialize: `==` with the value constructed through the public API
+            if let Some(exp) = job.get("expect").filter(|e| e.is_array()) {
+                if let Ok(e) = catch_unwind(|| crate::modes_from_json(exp)) {
+                    res.insert("eq_expected".into(), json!(e == modes));
+                }
+            }
+        }
+        Ok(Err(e)) => {
+            res.insert("accept".into(), json!(false));
+            res.insert("error".into(), json!(e.to_string()));
+        }
+        Err(p) => {
+            res.insert("accept".into(), json!(false));
+            res.insert("panic".into(), json!(crate::panic_message(p)));
+        }
+    }
+    Value::Object(res)
+}
+
+fn u(v: &Value, k: &str) -> usize {
+    v[k].as_u64().unwrap_or(0) as usize
+}
+
+fn position(l: usize, c: usize) -> Position {
+    if l > 0 && c > 0 {
+        Position::new(l, c)
+    } else {
+        // Position::new asserts 1-based numbers in debug builds; the fields are public
+        Position { line: l, column: c }
+    }
+}
+
+fn value_numbers(v: &Value) -> Value {
+    // flattens the numbers of a serialized Span / Position / Match / MatchExt in a fixed key order
+    let mut out: Vec<u64> = Vec::new();
+    let mut ok = true;
+    let mut num = |x: Option<&Value>| match x.and_then(|n| n.as_u64()) {
+        Some(n) => out.push(n),
+        None => ok = false,
+    };
+    if v.get("token_type").is_some() {
+        num(v.get("token_type"));
+        num(v.get("span").and_then(|s| s.get("start")));
+        num(v.get("span").and_then(|s| s.get("end")));
+        if v.get("start_position").is_some() {
+            num(v.get("start_position").and_then(|s| s.get("line")));
+            num(v.get("start_position").and_then(|s| s.get("column")));
+            num(v.get("end_position").and_then(|s| s.get("line")));
+            num(v.get("end_position").and_then(|s| s.get("column")));
+        }
+    } else if v.get("start").is_some() {
+        num(v.get("start"));
+        num(v.get("end"));
+    } else {
+        num(v.get("line"));
+        num(v.get("column"));
+    }
+    if ok {
+        json!(out)
+    } else {
+        Value::Null
+    }
+}
+
+fn job_values(job: &Value) -> Value {
+    let mut outs = Vec::new();
+    let empty = Vec::new();
+    for v in job.get("values").and_then(|v| v.as_array()).unwrap_or(&empty) {
+        let r = catch_unwind(|| {
+            let span = Span::new(u(v, "a"), u(v, "b"));
+            let p1 = position(u(v, "l1"), u(v, "c1"));
+            let p2 = position(u(v, "l2"), u(v, "c2"));
+            let m = Match::new(u(v, "t"), span);
+            // MatchExt::new is crate-private: outside the crate a MatchExt comes from a scanner run
+            // (see "scan" below) or from deserialization of the documented layout.
+            let me = match serde_json::from_str::<MatchExt>(v["me_text"].as_str().unwrap_or("")) {
+                Ok(me) => me,
+                Err(e) => return json!({"match_ext_error": e.to_string()}),
+            };
+            let built = me.token_type() == u(v, "t")
+                && me.span() == span
+                && me.start_position() == p1
+                && me.end_position() == p2;
+            let ts = serde_json::to_string(&span).unwrap();
+            let tp1 = serde_json::to_string(&p1).unwrap();
+            let tp2 = serde_json::to_string(&p2).unwrap();
+            let tm = serde_json::to_string(&m).unwrap();
+            let tme = serde_json::to_string(&me).unwrap();
+            let rt = matches!(serde_json::from_str::<Span>(&ts), Ok(x) if x == span)
+                && matches!(serde_json::from_str::<Position>(&tp1), Ok(x) if x == p1)
+                && matches!(serde_json::from_str::<Position>(&tp2), Ok(x) if x == p2)
+                && matches!(serde_json::from_str::<Match>(&tm), Ok(x) if x == m)
+                && matches!(serde_json::from_str::<MatchExt>(&tme), Ok(x) if x == me);
+            // the re-read values report the same numbers through the public accessors
+            let acc = match serde_json::from_str::<MatchExt>(&tme) {
+                Ok(x) => {
+                    x.token_type() == u(v, "t")
+                        && x.start() == u(v, "a")
+                        && x.end() == u(v, "b")
+                        && x.start_position().line == u(v, "l1")
+                        && x.start_position().column == u(v, "c1")
+                        && x.end_position().line == u(v, "l2")
+                        && x.end_position().column == u(v, "c2")
+                }
+                Err(_) => false,
+            } && match serde_json::from_str::<Match>(&tm) {
+                Ok(x) => x.token_type() == u(v, "t") && x.start() == u(v, "a") && x.end() == u(v, "b"),
+                Err(_) => false,
+            };
+            json!({"span": ts, "start_position": tp1, "end_position": tp2, "match": tm, "match_ext": tme,
+                   "roundtrip": rt, "accessors": acc && built})
+        });
+        outs.push(match r {
+            Ok(v) => v,
+            Err(p) => json!({"panic": crate::panic_message(p)}),
+        });
+    }
+    let mut parsed = Vec::new();
+    for p in job.get("parse").and_then(|v| v.as_array()).unwrap_or(&empty) {
+        let text = p["text"].as_str().unwrap_or("");
+        let ty = p["ty"].as_str().unwrap_or("");
+        let r: Result<Value, String> = match ty {
+            "span" => serde_json::from_str::<Span>(text)
+                .map_err(|e| e.to_string())
+                .map(|x| json!([x.start, x.end])),
+            "position" => serde_json::from_str::<Position>(text)
+                .map_err(|e| e.to_string())
+                .map(|x| json!([x.line, x.column])),
+            "match" => serde_json::from_str::<Match>(text)
+                .map_err(|e| e.to_string())
+                .map(|x| json!([x.token_type(), x.start(), x.end()])),
+            "match_ext" => serde_json::from_str::<MatchExt>(text).map_err(|e| e.to_string()).map(|x| {
+                json!([x.token_type(), x.start(), x.end(), x.start_position().line, x.start_position().column,
+                       x.end_position().line, x.end_position().column])
+            }),
+            other => Err(format!("harness: unknown value type {}", other)),
+        };
+        parsed.push(match r {
+            Ok(nums) => {
+                // the same numbers as the Serialize output of the parsed value shows
+                let again = match ty {
+                    "span" => serde_json::from_str::<Span>(text).ok().and_then(|x| serde_json::to_value(x).ok()),
+                    "position" => serde_json::from_str::<Position>(text).ok().and_then(|x| serde_json::to_value(x).ok()),
+                    "match" => serde_json::from_str::<Match>(text).ok().and_then(|x| serde_json::to_value(x).ok()),
+                    _ => serde_json::from_str::<MatchExt>(text).ok().and_then(|x| serde_json::to_value(x).ok()),
+                };
+                json!({"accept": true, "value": nums, "reser_value": again.map(|v| value_numbers(&v))})
+            }
+            Err(e) => json!({"accept": false, "error": e}),
+        });
+    }
+    // MatchExt / Match values as a scanner produces them
+    let mut scanned = Vec::new();
+    if let Some(sc) = job.get("scan") {
+        let r = catch_unwind(|| {
+            let modes = crate::modes_from_json(&sc["modes"]);
+            let (s, _, _) = crate::build(&modes, false);
+            let mut v = Vec::new();
+            if let Some(s) = s {
+                let input = sc["input"].as_str().unwrap_or("");
+                for me in s.find_iter(input).with_positions() {
+                    let t = serde_json::to_string(&me).unwrap_or_default();
+                    let rt = matches!(serde_json::from_str::<MatchExt>(&t), Ok(x) if x == me);
+                    v.push(json!({"nums": [me.token_type(), me.start(), me.end(), me.start_position().line,
+                                           me.start_position().column, me.end_position().line, me.end_position().column],
+                                  "text": t, "roundtrip": rt}));
+                }
+                for m in s.find_iter(input) {
+                    let t = serde_json::to_string(&m).unwrap_or_default();
+                    let rt = matches!(serde_json::from_str::<Match>(&t), Ok(x) if x == m);
+                    v.push(json!({"nums": [m.token_type(), m.start(), m.end()], "text": t, "roundtrip": rt}));
+                }
+            }
+            v
+        });
+        scanned = r.unwrap_or_default();
+    }
+    json!({"values": outs, "parsed": parsed, "scanned": scanned})
+}
+
+pub fn run(kind: &str, job: &Value) -> Option<Value> {
+    match kind {
+        "json_roundtrip" => Some(job_roundtrip(job)),
+        "json_parse" => Some(job_parse(job)),
+        "json_values" => Some(job_values(job)),
+        _ => None,
+    }
 }
